@@ -372,6 +372,9 @@ def maclocal():
                     for direction in ('fwd', 'back'):
                         for opts in ([], ['-C'], ['-L'], ['-C', '-L'], ['-u']):
                             yield {'k': 'macloc', 't': t, 'kind': kind, 'gap': gl, 'wrap': wrap, 'dir': direction, 'opts': opts}
+                        # a label of the same name outside the body: the body's own label hides it, also for the reference in front of it
+                        for opts in ([], ['-C']):
+                            yield {'k': 'macloc', 't': t, 'kind': kind, 'gap': gl, 'wrap': wrap, 'dir': direction, 'opts': opts, 'outer': 1}
 
 
 def render_macloc(case):
@@ -384,6 +387,8 @@ def render_macloc(case):
         l = ['\t' + nop, '\trept 1'] + body + ['\tendm']
     else:
         l = ['\t' + nop, '\tirp q,1'] + body + ['\tendm']
+    if case.get('outer'):
+        l = ['over:\t' + nop] + l
     return head + '\n'.join(l) + '\n'
 
 
@@ -400,7 +405,7 @@ def ev_macloc(case):
             return core.R(False, ck, 'crash/macloc/%s' % ck, '%s on %s' % (ck, d))
         res.append((o.rc, core.get('a.p') if o.rc == 0 else None, tr[-1][3] if tr else None, len(tr)))
     n = res[0][3] + res[1][3]
-    sig = '%s/%s/%s' % (case['wrap'], case['kind'], '+'.join(case['opts']) or 'plain')
+    sig = '%s/%s/%s%s' % (case['wrap'], case['kind'], '+'.join(case['opts']) or 'plain', '/hides-outer-label' if case.get('outer') else '')
     if res[0][0] == 97:
         return core.R(False, 'no-fixpoint', 'termination/macloc/' + sig, 'no convergence within %d passes on %s' % (MAXP, d), transitions=n)
     if res[0][0] != res[1][0]:
